@@ -116,3 +116,16 @@ def verdict_kernels(O, tag):
                 sc + list(R.battery), R.judge)
 
     decide(O, ["value.rs", "lib.rs"], ["verdict_rules", "entry_and_row_verdicts"], ["verdict_witness"], on_fail, tag)
+
+
+# ---------------------------------------------------------------- C01: FramedMap::set / get / push_frame / pop_frame
+
+def framed_map_kernels(O, tag):
+    from . import C01
+
+    def on_fail(h, vals):
+        R = C01.rep()
+        return ("a `set` in a new frame overwrote or lost a binding below the frame", dict(R.facts, kernel="FramedMap::set"),
+                list(R.battery), R.judge)
+
+    decide(O, ["framed_map.rs"], ["set_in_a_new_frame_shadows"], ["set_in_a_new_frame_witness"], on_fail, tag)
